@@ -20,6 +20,7 @@ import (
 	"strconv"
 	"strings"
 
+	"golang.org/x/net/http/httpguts"
 	"google.golang.org/genproto/googleapis/rpc/status"
 	"google.golang.org/protobuf/encoding/protojson"
 	"google.golang.org/protobuf/proto"
@@ -299,6 +300,11 @@ func parseGrpcEnd(hdr http.Header, place string) *endRec {
 			end.Extra = "bad grpc-message percent-encoding"
 		}
 		end.Msg = dec
+		if !httpguts.ValidHeaderFieldValue(m) {
+			// an HTTP/2 stack drops a field that is not legal on the wire: the message is lost
+			end.Msg = ""
+			end.Extra = "grpc-message is not a legal header value"
+		}
 	}
 	if d := hdr.Get("Grpc-Status-Details-Bin"); d != "" {
 		raw, err := base64.RawStdEncoding.DecodeString(strings.TrimRight(d, "="))
